@@ -42,6 +42,8 @@ def shrink_failures(chk, c_exe, m_exe):
 
 def run(chk):
     c_exe, m_exe = vlib.prepare_area(chk, sort, leanchecker=True)
+    from areas import sortmap_tie
+    sortmap_tie.tie_run(chk, "sort")
     if c_exe:
         vlib.run_scripts(chk, sort, c_exe, m_exe, sort.corpus(), sort.oracle)
         if chk.tier == "quick":
